@@ -3,12 +3,8 @@ package main
 // C16 — shapefile write/read round trip (geometry conversion and attribute tables).
 
 import (
-	"fmt"
-	"go/ast"
 	"go/token"
 	"go/types"
-	"sort"
-	"strings"
 )
 
 func init() { register("C16", true, checkC16) }
@@ -45,306 +41,4 @@ func checkC16(c *Ctx) {
 
 // ---------------------------------------------------------------- R2
 
-func (a *c16) matching() {
-	c := a.c
-	decT := c.P.NamedType("encoding/shp", "Decoder")
-	if decT == nil {
-		c.Unk("C16.R5", "encoding/shp.Decoder", token.NoPos, "type anchor does not resolve")
-		return
-	}
-	var idx *types.Var
-	if st, ok := decT.Underlying().(*types.Struct); ok {
-		for i := 0; i < st.NumFields(); i++ {
-			if m, ok := st.Field(i).Type().Underlying().(*types.Map); ok {
-				if b, ok := m.Key().Underlying().(*types.Basic); ok && b.Kind() == types.String {
-					if e, ok := m.Elem().Underlying().(*types.Basic); ok && e.Info()&types.IsInteger != 0 {
-						idx = st.Field(i)
-					}
-				}
-			}
-		}
-	}
-	if idx == nil {
-		c.Unk("C16.R5", "encoding/shp.Decoder#column-index", token.NoPos, "no map[string]int field found on Decoder")
-		return
-	}
-	isIdx := func(e ast.Expr) bool {
-		sel, ok := unparen(e).(*ast.SelectorExpr)
-		if !ok {
-			return false
-		}
-		sl := a.info.Selections[sel]
-		return sl != nil && sl.Obj() == idx
-	}
-	for _, fn := range c.P.RepoFuncs() {
-		if c.P.DeclPkg(fn) != a.p {
-			continue
-		}
-		fd := c.P.Decl(fn)
-		sc := newFnScope(a.info, fd.Body)
-		// classification of a key expression
-		var classify func(e ast.Expr, depth int, lower *bool, kinds map[string]bool)
-		classify = func(e ast.Expr, depth int, lower *bool, kinds map[string]bool) {
-			if depth > 5 || e == nil {
-				return
-			}
-			ast.Inspect(e, func(n ast.Node) bool {
-				switch x := n.(type) {
-				case *ast.CallExpr:
-					if f := callee(a.info, x); f != nil {
-						if isFuncIn(f, "strings", "ToLower") {
-							*lower = true
-						}
-						if f.Pkg() != nil && f.Pkg().Path() == "reflect" && (f.Name() == "Get" || f.Name() == "Lookup") {
-							kinds["tag"] = true
-							return false
-						}
-					}
-				case *ast.SelectorExpr:
-					if sl := a.info.Selections[x]; sl != nil && sl.Kind() == types.FieldVal {
-						if v, ok := sl.Obj().(*types.Var); ok && v.Pkg() != nil && v.Pkg().Path() == "reflect" && v.Name() == "Name" {
-							kinds["name"] = true
-							return false
-						}
-					}
-				case *ast.Ident:
-					if o := objOf(a.info, x); o != nil {
-						if _, isVar := o.(*types.Var); isVar {
-							ds := sc.defs[o]
-							allLower := len(ds) > 0
-							for _, d := range ds {
-								if d == nil {
-									allLower = false
-									continue
-								}
-								lw := false
-								classify(d, depth+1, &lw, kinds)
-								if !lw {
-									allLower = false
-								}
-							}
-							if allLower {
-								*lower = true
-							}
-							if len(ds) == 0 {
-								kinds["other:"+o.Name()] = true
-							}
-						}
-					}
-				}
-				return true
-			})
-		}
-		nStore, nLookup := 0, 0
-		byKind := map[string]bool{}
-		usesReflectFields := false
-		var firstLookup token.Pos
-		ast.Inspect(fd.Body, func(n ast.Node) bool {
-			as, ok := n.(*ast.AssignStmt)
-			if !ok {
-				return true
-			}
-			// stores M[k] = i
-			for _, lh := range as.Lhs {
-				if ix, ok := unparen(lh).(*ast.IndexExpr); ok && isIdx(ix.X) {
-					nStore++
-					lw := false
-					classify(ix.Index, 0, &lw, map[string]bool{})
-					cons := fmt.Sprintf("%s#store:%s", c.P.FuncName(fn), src(lh))
-					if lw {
-						c.OK("C16.R5", cons, as.Pos(), "column index keyed by the lower-cased column name")
-					} else {
-						c.Bad("C16.R5", cons, as.Pos(), "the column index is keyed by `%s`, which is not lower-cased: lookups are lower-cased, so a column with capitals is never found", src(ix.Index))
-					}
-				}
-			}
-			// lookups j, ok := M[k]
-			if len(as.Rhs) == 1 {
-				if ix, ok := unparen(as.Rhs[0]).(*ast.IndexExpr); ok && isIdx(ix.X) {
-					nLookup++
-					if firstLookup == token.NoPos {
-						firstLookup = as.Pos()
-					}
-					lw := false
-					kinds := map[string]bool{}
-					classify(ix.Index, 0, &lw, kinds)
-					cons := fmt.Sprintf("%s#lookup:%s", c.P.FuncName(fn), src(ix.Index))
-					if !lw {
-						c.Bad("C16.R5", cons, as.Pos(), "lookup key `%s` is not lower-cased while the index is: matching is no longer case-insensitive", src(ix.Index))
-						return true
-					}
-					var ks []string
-					for k := range kinds {
-						ks = append(ks, k)
-					}
-					sort.Strings(ks)
-					if kinds["tag"] || kinds["name"] {
-						usesReflectFields = true
-					}
-					if len(ks) == 1 {
-						byKind[ks[0]] = true
-					}
-					c.OK("C16.R5", cons, as.Pos(), "lower-cased key derived from %v", ks)
-				}
-			}
-			return true
-		})
-		if usesReflectFields {
-			cons := c.P.FuncName(fn) + "#tag-or-name"
-			switch {
-			case !byKind["tag"]:
-				c.Bad("C16.R5", cons, firstLookup, "no lookup is keyed by the struct tag alone: a field whose tag names the column is not matched by it")
-			case !byKind["name"]:
-				c.Bad("C16.R5", cons, firstLookup, "no lookup is keyed by the Go field name alone: a field that carries a tag is never matched by its name, so it silently keeps its zero value when the file's column is named after the field")
-			default:
-				c.OK("C16.R5", cons, firstLookup, "one lookup by tag, one independent lookup by field name")
-			}
-		}
-		_ = nStore
-		_ = nLookup
-	}
-}
-
 // ---------------------------------------------------------------- R6
-
-// rowCursor: the attribute-row counter advances with the shape cursor.  In every Decoder
-// method that advances the shape cursor (a call of the embedded reader's Next), each
-// return reached with "there was a record" and no error recorded has passed exactly one
-// increment of the row counter; otherwise the attributes of later records are read from an
-// earlier row (same order / equal attributes clause).
-func (a *c16) rowCursor() {
-	c := a.c
-	decT := c.P.NamedType("encoding/shp", "Decoder")
-	if decT == nil {
-		return
-	}
-	// the int field incremented by the decoding methods
-	for _, fn := range c.P.RepoFuncs() {
-		if c.P.DeclPkg(fn) != a.p {
-			continue
-		}
-		sig := fn.Type().(*types.Signature)
-		if sig.Recv() == nil || named(sig.Recv().Type()) != decT {
-			continue
-		}
-		fd := c.P.Decl(fn)
-		recv := receiverVar(a.info, fd)
-		callsNext := false
-		var moreVars = map[types.Object]bool{}
-		ast.Inspect(fd.Body, func(n ast.Node) bool {
-			as, ok := n.(*ast.AssignStmt)
-			if !ok || len(as.Rhs) != 1 {
-				return true
-			}
-			if call, ok := unparen(as.Rhs[0]).(*ast.CallExpr); ok {
-				if f := callee(a.info, call); f != nil && f.Name() == "Next" && f.Pkg() != nil && f.Pkg().Path() == goshpPath {
-					callsNext = true
-					if o := objOf(a.info, as.Lhs[0]); o != nil {
-						moreVars[o] = true
-					}
-				}
-			}
-			return true
-		})
-		if !callsNext {
-			continue
-		}
-		name := c.P.FuncName(fn) + "#row-cursor"
-		isErrExpr := func(e ast.Expr) bool {
-			t := a.info.TypeOf(e)
-			return t != nil && types.Identical(t, types.Universe.Lookup("error").Type())
-		}
-		var exempting func(e ast.Expr, truth bool) bool
-		exempting = func(e ast.Expr, truth bool) bool {
-			e = unparen(e)
-			switch x := e.(type) {
-			case *ast.UnaryExpr:
-				if x.Op == token.NOT {
-					return exempting(x.X, !truth)
-				}
-			case *ast.BinaryExpr:
-				switch x.Op {
-				case token.LOR:
-					if truth {
-						return exempting(x.X, true) && exempting(x.Y, true)
-					}
-					return exempting(x.X, false) || exempting(x.Y, false)
-				case token.LAND:
-					if truth {
-						return exempting(x.X, true) || exempting(x.Y, true)
-					}
-					return exempting(x.X, false) && exempting(x.Y, false)
-				case token.NEQ, token.EQL:
-					for _, pr := range [][2]ast.Expr{{x.X, x.Y}, {x.Y, x.X}} {
-						if isErrExpr(pr[0]) && isNilConst(a.info, pr[1]) {
-							return (x.Op == token.NEQ) == truth
-						}
-					}
-				}
-			case *ast.Ident:
-				if o := objOf(a.info, x); o != nil && moreVars[o] {
-					return !truth
-				}
-			}
-			return false
-		}
-		var bad ast.Node
-		var why string
-		nRet := 0
-		cl := &FactsClient{}
-		cl.OnBranch = func(cond ast.Expr, truth bool, s Facts) Facts {
-			if exempting(cond, truth) {
-				s["exempt"] = true
-			}
-			return s
-		}
-		cl.OnStmt = func(n ast.Node, s Facts) Facts {
-			switch x := n.(type) {
-			case *ast.IncDecStmt:
-				if sel, ok := unparen(x.X).(*ast.SelectorExpr); ok && objOf(a.info, sel.X) == recv && x.Tok == token.INC {
-					if s["inc"] {
-						s["inc2"] = true
-					}
-					s["inc"] = true
-				}
-			case *ast.AssignStmt:
-				for i, l := range x.Lhs {
-					if sel, ok := unparen(l).(*ast.SelectorExpr); ok && objOf(a.info, sel.X) == recv && isErrExpr(l) {
-						if i < len(x.Rhs) && !isNilConst(a.info, x.Rhs[i]) {
-							s["exempt"] = true
-						}
-					}
-				}
-			}
-			return s
-		}
-		cl.OnReturn = func(r *ast.ReturnStmt, s Facts) {
-			nRet++
-			if bad != nil {
-				return
-			}
-			var at ast.Node = fd
-			if r != nil {
-				at = r
-			}
-			if s["exempt"] {
-				return
-			}
-			if !s["inc"] {
-				bad, why = at, "returns after a record was fetched (no error recorded, more records reported) without advancing the attribute-row counter: every later record is decoded with the attributes of an earlier row"
-			} else if s["inc2"] {
-				bad, why = at, "advances the attribute-row counter twice for one record"
-			}
-		}
-		fl := &Flow[Facts]{C: cl, Info: a.info}
-		fl.Run(fd.Body, Facts{})
-		switch {
-		case len(fl.Unsupported) > 0:
-			c.Unk("C16.R6", name, fl.Unsupported[0].Pos(), "unsupported control flow")
-		case bad != nil:
-			c.Bad("C16.R6", name, bad.Pos(), "`%s` %s", strings.SplitN(src(bad), "\n", 2)[0], why)
-		default:
-			c.OK("C16.R6", name, fd.Pos(), "%d return paths: each non-error path with a record increments the row counter exactly once", nRet)
-		}
-	}
-}
